@@ -12,7 +12,8 @@ enumerated cut point) is judged by TLC.
 End to end: System.tla composes the whole life cycle (PSYNC, receive, checkpointed batches, connection
 drops with re-PSYNC at the next byte, crash + restart from the stored checkpoint; ExactlyOnce, CkptAtomic,
 NeverAhead, ResumeExact, completion under fairness; the deviation "checkpoint written after the data"
-must violate it).  Complete runs of the REAL DbSyncer.Sync() (scripted source with drops inside
+must violate it; SystemInd.tla, its counter abstraction, has an inductive invariant that Apalache discharges for
+unbounded stream length, command length and fault counts).  Complete runs of the REAL DbSyncer.Sync() (scripted source with drops inside
 commands, pre-stored checkpoints, model Redis target) log every transaction the target executes;
 SystemTrace.tla judges each one: its writes are exactly the stream commands between the previous and
 the new checkpoint, which is a command boundary within what the source had sent.  Further runs put the
@@ -55,6 +56,19 @@ def end_to_end(sc, verdict, thorough, seed):
     r = vlib.tlc(sc, "System", "System_dev.cfg", workers=4, timeout=600)
     if not r.violated:
         raise Infra("System.tla: writing the checkpoint in a separate step no longer violates the contract - the model is vacuous")
+    # unbounded safety: Apalache discharges an inductive invariant of the counter abstraction SystemInd.tla for ALL stream lengths,
+    # command lengths and numbers of drops / crashes (initiation, consecution, and that the invariant implies the safety properties)
+    import subprocess
+    for what, args in (("initiation", ["--init=Init", "--inv=IndInv", "--length=0"]), ("consecution", ["--init=IndInit", "--inv=IndInv", "--length=1"]),
+                       ("implies safety", ["--init=IndInit", "--inv=Safety", "--length=0"])):
+        cmd = ["apalache-mc", "check", "--cinit=ConstInit", "--out-dir=" + sc.path("apalache-out")] + args + ["SystemInd.tla"]
+        try:
+            p = subprocess.run(cmd, cwd=sc.dir, stdout=subprocess.PIPE, stderr=subprocess.STDOUT, text=True, timeout=900)
+        except subprocess.TimeoutExpired:
+            raise Infra("apalache timed out on SystemInd (%s)" % what)
+        if "EXITCODE: OK" not in p.stdout:
+            raise Infra("apalache could not discharge SystemInd %s:\n%s" % (what, p.stdout[-2500:]))
+        cmds.append(" ".join(cmd[:3] + args + ["SystemInd.tla"]))
     rnd = random.Random(seed * 31 + 7)
     scen = []
     for i in range(24 if thorough else 6):
